@@ -122,6 +122,10 @@ class Fn:
         sp = span or self.span
         return "%s:%d" % (sp["file"], sp["line"])
 
+    def inlined_locals(self):
+        """Locals that are variables of an inlined helper (fresh at every call of it)."""
+        return {v["place"]["local"] for v in self.d["debug"] if v.get("inlined") and not v["place"]["proj"]}
+
     def debug_names(self):
         m = {}
         for v in self.d["debug"]:
@@ -188,7 +192,25 @@ def _sig_text(sg):
     return "(%s) -> %s" % (", ".join(i.get("s", "?") for i in sg.get("inputs", [])), sg.get("output", {}).get("s", "?"))
 
 
-def alias_renamed(d, known_functions, known_sigs):
+def body_fingerprint(b):
+    """What a body calls (last path segment, with multiplicity) - enough to tell two same-signature siblings apart."""
+    names = {}
+    for blk in b["blocks"]:
+        if blk.get("cleanup"):
+            continue
+        t = blk["term"]
+        if t["t"] in ("call", "tailcall"):
+            nm = (t.get("callee_name") or (t.get("callee") or "?").rsplit("::", 1)[-1])
+            names[nm] = names.get(nm, 0) + 1
+    return sorted("%s#%d" % (k, i) for k, v in names.items() for i in range(v))
+
+
+def _similar(a, b):
+    a, b = set(a), set(b)
+    return len(a & b) / float(len(a | b) or 1)
+
+
+def alias_renamed(d, known_functions, known_sigs, known_prints=None):
     """A function of the reference tree that is gone, and exactly one new function with the same signature beside it
     (same module / impl), or with the same name somewhere else: the function was renamed or moved.  The rule tables
     name functions by path; the new function is given the old path (in its body, its closures, its signature entry
@@ -203,12 +225,25 @@ def alias_renamed(d, known_functions, known_sigs):
     parent = lambda p: p.rsplit("::", 1)[0] if "::" in p else ""
     last = lambda p: p.rsplit("::", 1)[-1]
     ren, taken = {}, set()
+    pairs = []
     for f in sorted(missing):
-        same_sig = [g for g in new if g not in taken and _sig_text(sigs[g]) == known_sigs[f]]
+        same_sig = [g for g in new if _sig_text(sigs[g]) == known_sigs[f]]
         cands = [g for g in same_sig if parent(g) == parent(f)] or [g for g in same_sig if last(g) == last(f)]
-        if len(cands) == 1:
-            ren[cands[0]] = f
-            taken.add(cands[0])
+        for g in cands:
+            sim = _similar(body_fingerprint(bodies[g]), (known_prints or {}).get(f, [])) if known_prints and f in known_prints else 0.0
+            pairs.append((sim, f, g, len(cands)))
+    # unambiguous candidates first, then the most similar bodies (several siblings with one signature renamed at once)
+    done = set()
+    for (sim, f, g, nc) in sorted(pairs, key=lambda x: (-(x[3] == 1), -x[0])):
+        if f in done or g in taken:
+            continue
+        if nc > 1:
+            rivals = [x[0] for x in pairs if (x[1] == f) != (x[2] == g) and x[1] not in done and x[2] not in taken]
+            if sim < 0.3 or any(r_ >= sim - 0.05 for r_ in rivals if r_ > 0):
+                continue
+        ren[g] = f
+        taken.add(g)
+        done.add(f)
     if not ren:
         return {}
 
@@ -242,16 +277,265 @@ def alias_renamed(d, known_functions, known_sigs):
     return ren
 
 
+def alias_renamed_fields(d, known_fields):
+    """known_fields: adt path -> [[field name, type], ..] of the reference tree.  A struct of the crate that lost a
+    field name and gained another of the same type (at the same position, or the only one of that type): the field
+    was renamed.  Every projection and aggregate is given the old name again, so that `param:self.total_len` in a
+    rule table still means that field.  Returns {(adt, new name): old name}."""
+    ren = {}
+    for a in d["adts"]:
+        old = known_fields.get(a["path"])
+        if not old or a["is_enum"] or not a["variants"]:
+            continue
+        cur = [(f["name"], f["ty"].get("s", "?")) for f in a["variants"][0]["fields"]]
+        oldn, curn = {n for n, _ in old}, {n for n, _ in cur}
+        gone = [(i, n, t) for i, (n, t) in enumerate(old) if n not in curn]
+        fresh = [(i, n, t) for i, (n, t) in enumerate(cur) if n not in oldn]
+        for (i, n, t) in gone:
+            c = [x for x in fresh if x[0] == i and x[2] == t] or [x for x in fresh if x[2] == t]
+            if len(c) == 1:
+                ren[(a["path"], c[0][1])] = n
+                fresh.remove(c[0])
+    if not ren:
+        return ren
+
+    def walk(x):
+        if isinstance(x, dict):
+            if x.get("p") == "field" and (x.get("owner"), x.get("name")) in ren:
+                x["name"] = ren[(x["owner"], x["name"])]
+            if x.get("r") == "aggregate" and x.get("adt") and x.get("fields"):
+                x["fields"] = [ren.get((x["adt"], n), n) for n in x["fields"]]
+            for v in x.values():
+                walk(v)
+        elif isinstance(x, list):
+            for v in x:
+                walk(v)
+    walk(d["bodies"])
+    for a in d["adts"]:
+        if not a["is_enum"] and a["variants"]:
+            for f in a["variants"][0]["fields"]:
+                f["name"] = ren.get((a["path"], f["name"]), f["name"])
+    return ren
+
+
+def alias_renamed_params(d, known_params):
+    """known_params: function path -> [[parameter name, type], ..] of the reference tree.  A parameter whose name is
+    not one of the function's known parameter names, at a position whose type is unchanged, gets the reference
+    tree's name for that position (rule tables say `param:from`, `param:size`).  A reordering keeps the names and
+    is left alone."""
+    n = 0
+    for b in d["bodies"]:
+        kp = known_params.get(b["path"])
+        if not kp or b.get("arg_count") != len(kp):
+            continue
+        names = {x[0] for x in kp}
+        for v in b.get("debug", []):
+            pl = v["place"]
+            if pl["proj"] or not (1 <= pl["local"] <= b["arg_count"]):
+                continue
+            want, ty = kp[pl["local"] - 1]
+            if v["name"] != want and v["name"] not in names and b["locals"][pl["local"]].get("s") == ty:
+                v["name"] = want
+                n += 1
+    return n
+
+
+def unname_new_consts(d, known_consts):
+    """A named integer constant that the reference tree does not have (`const HEADER_OFFSET_MINIFAT: u64 = 60`) is a
+    literal with a name: operands that mention it are given its value, which is what the rule tables spell."""
+    n = [0]
+    # a new constant with the name and the value of one the reference tree has (a private `const MINI_SECTOR_LEN: u64`
+    # beside consts::MINI_SECTOR_LEN) is that constant
+    cur = {c["path"]: c.get("val") for c in d.get("consts", [])}
+    by_short = {}
+    for kp in known_consts:
+        if kp in cur:
+            by_short.setdefault(kp.rsplit("::", 1)[-1], set()).add((kp, str(cur[kp])))
+
+    def walk(x):
+        if isinstance(x, dict):
+            if x.get("k") == "const" and "named" in x and "val" in x and not x.get("promoted") and x["named"] not in known_consts:
+                same = [kp for (kp, v) in by_short.get(x["named"].rsplit("::", 1)[-1], ()) if v == str(x["val"])]
+                if len(same) == 1:
+                    x["named"] = same[0]
+                    x["repr"] = same[0]
+                else:
+                    del x["named"]
+                    x["repr"] = str(x["val"])
+                n[0] += 1
+            for v in x.values():
+                walk(v)
+        elif isinstance(x, list):
+            for v in x:
+                walk(v)
+    walk(d["bodies"])
+    return n[0]
+
+
+def alias_renamed_locals(d, known_locals):
+    """known_locals: function path -> [[local variable name, type], ..] of the reference tree (parameters excluded).
+    A variable name of the reference tree that is gone while exactly one new name of the same type appeared (or the
+    new names of that type line up one to one, in declaration order, with the missing ones): the variable was renamed.
+    A few rule-table rows name a local (`var:sector_ids`)."""
+    n = 0
+    for b in d["bodies"]:
+        kl = known_locals.get(b["path"])
+        if not kl:
+            continue
+        cur = []
+        for v in b.get("debug", []):
+            pl = v["place"]
+            if pl["proj"] or pl["local"] <= b.get("arg_count", 0):
+                continue
+            ty = b["locals"][pl["local"]].get("s", "?")
+            if (v["name"], ty) not in cur:
+                cur.append((v["name"], ty))
+        oldn, curn = {x[0] for x in kl}, {x[0] for x in cur}
+        gone = [(nm, ty) for nm, ty in kl if nm not in curn]
+        fresh = [(nm, ty) for nm, ty in cur if nm not in oldn]
+        if not gone or not fresh:
+            continue
+        ren = {}
+        for ty in {t for _, t in gone}:
+            g_ = [nm for nm, t in gone if t == ty]
+            f_ = [nm for nm, t in fresh if t == ty]
+            if len(g_) == len(f_):
+                ren.update(dict(zip(f_, g_)))
+        if not ren:
+            continue
+        for v in b.get("debug", []):
+            pl = v["place"]
+            if not pl["proj"] and pl["local"] > b.get("arg_count", 0) and v["name"] in ren:
+                v["name"] = ren[v["name"]]
+                n += 1
+    return n
+
+
+def sroa_bundled_params(d, known_params, known_fields):
+    """`Introduce parameter object`: a function of the reference tree now takes a new private struct by value where it
+    took the struct's fields one by one (`fn f(a, id: u32, off: u64, buf)` -> `fn f(a, w: Window, buf)`), and every
+    caller builds the struct right at the call.  When flattening the new struct parameters field by field gives the
+    reference tree's parameter types back, the function and its call sites are rewritten to the flat form (the
+    struct parameter is replaced by one parameter per field, with the reference tree's names): rule tables count
+    arguments by position and name parameters.  Anything less regular (the struct used as a whole inside the callee, a
+    caller that passes a struct it got from elsewhere) leaves the function as it is.  Returns the rewritten paths."""
+    import copy as _copy
+    adts = {a["path"]: a for a in d["adts"]}
+    bodies = {b["path"]: b for b in d["bodies"]}
+    done = []
+    for path, kp in known_params.items():
+        b = bodies.get(path)
+        if b is None or b.get("arg_count", 0) >= len(kp) or b["kind"] not in ("fn", "assocfn"):
+            continue
+        flat = []
+        for i in range(1, b["arg_count"] + 1):
+            ty = b["locals"][i]
+            a = adts.get(ty.get("adt")) if ty.get("k") == "adt" else None
+            if a is not None and not a["is_enum"] and a["path"] not in known_fields and a["variants"] and a["variants"][0]["fields"]:
+                for fi, fld in enumerate(a["variants"][0]["fields"]):
+                    flat.append((i, fi, fld["ty"], a["path"]))
+            else:
+                flat.append((i, None, ty, None))
+        if [x[2].get("s") for x in flat] != [t for _, t in kp]:
+            continue
+        bundled = {i: adt for (i, fi, _, adt) in flat if fi is not None}
+        newidx = {(i, fi): j + 1 for j, (i, fi, _, _) in enumerate(flat)}
+        delta = len(flat) - b["arg_count"]
+        # 1. inside the callee the struct parameters are only ever read field by field
+        ok = [True]
+
+        def scan(x):
+            if isinstance(x, dict):
+                if "local" in x and x["local"] in bundled:
+                    pj = x.get("proj")
+                    if not pj or pj[0].get("p") != "field":
+                        ok[0] = False
+                for v in x.values():
+                    scan(v)
+            elif isinstance(x, list):
+                for v in x:
+                    scan(v)
+        scan(b["blocks"])
+        if not ok[0]:
+            continue
+        # 2. the call sites (each passes the struct as a place whose fields can be named one by one)
+        sites = []
+        for cb in d["bodies"]:
+            for blk in cb["blocks"]:
+                t = blk["term"]
+                if t["t"] in ("call", "tailcall") and (t.get("resolved") == path or t.get("callee") == path):
+                    for i in bundled:
+                        a_ = t["args"][i - 1] if i - 1 < len(t["args"]) else None
+                        if not a_ or a_["k"] not in ("move", "copy"):
+                            ok[0] = False
+                    sites.append(t)
+        if not ok[0] or not sites:
+            continue
+        # 3. rewrite the callee
+        def remap(x):
+            if isinstance(x, dict):
+                if "local" in x and isinstance(x["local"], int):
+                    l = x["local"]
+                    if l in bundled:
+                        fi = x["proj"][0]["i"]
+                        x["local"] = newidx[(l, fi)]
+                        x["proj"] = x["proj"][1:]
+                    elif 1 <= l <= b["arg_count"]:
+                        x["local"] = newidx[(l, None)]
+                    elif l > b["arg_count"]:
+                        x["local"] = l + delta
+                for k_, v in x.items():
+                    if k_ != "local":
+                        remap(v)
+            elif isinstance(x, list):
+                for v in x:
+                    remap(v)
+        b["debug"] = [v for v in b.get("debug", []) if not (v["place"]["local"] in bundled)]
+        remap(b["blocks"])
+        remap(b["debug"])
+        b["locals"] = [b["locals"][0]] + [x[2] for x in flat] + b["locals"][b["arg_count"] + 1:]
+        have = {v["place"]["local"] for v in b["debug"] if not v["place"]["proj"]}
+        for j, (nm, ty) in enumerate(kp):
+            if j + 1 not in have:
+                b["debug"].append({"name": nm, "place": {"local": j + 1, "proj": [], "ty": ty}})
+        b["arg_count"] = len(flat)
+        # 4. rewrite the call sites: the struct operand becomes one operand per field
+        for t in sites:
+            args = []
+            for i, a_ in enumerate(t["args"], start=1):
+                if i in bundled:
+                    flds = adts[bundled[i]]["variants"][0]["fields"]
+                    for fi, fld in enumerate(flds):
+                        pl = _copy.deepcopy(a_["place"])
+                        pl["proj"] = list(pl["proj"]) + [{"p": "field", "i": fi, "name": fld["name"], "owner": bundled[i], "ty": fld["ty"].get("s", "?")}]
+                        pl["ty"] = fld["ty"].get("s", "?")
+                        args.append({"k": "copy", "place": pl})
+                else:
+                    args.append(a_)
+            t["args"] = args
+        for s_ in d["sigs"]:
+            if s_["path"] == path:
+                s_["inputs"] = [x[2] for x in flat]
+        done.append(path)
+    return done
+
+
 class Facts:
-    def __init__(self, path, known_functions=None, known_sigs=None):
+    def __init__(self, path, known_functions=None, known_sigs=None, known_fields=None, known_params=None, known_prints=None, known_locals=None, known_consts=None):
         with open(path) as f:
             self.d = json.load(f)
         self.crate = self.d["crate"]
         self.inlined = []
-        self.renamed = alias_renamed(self.d, set(known_functions), known_sigs) if known_functions and known_sigs else {}
+        self.renamed = alias_renamed(self.d, set(known_functions), known_sigs, known_prints) if known_functions and known_sigs else {}
+        self.renamed_fields = alias_renamed_fields(self.d, known_fields) if known_fields else {}
+        self.renamed_params = alias_renamed_params(self.d, known_params) if known_params else 0
+        self.flattened = sroa_bundled_params(self.d, known_params, known_fields or {}) if known_params else []
+        self.renamed_locals = alias_renamed_locals(self.d, known_locals) if known_locals else 0
+        self.unnamed_consts = unname_new_consts(self.d, set(known_consts)) if known_consts else 0
         bodies = {b["path"]: b for b in self.d["bodies"]}
         if known_functions:
             import inline
+            inline.ADTS = {a["path"]: [v["name"] for v in a["variants"]] for a in self.d["adts"] if a["is_enum"] and all(not v.get("fields") for v in a["variants"])}
             self.inlined, self.removed = inline.inline_new_helpers(bodies, set(known_functions))
         self.fns = {}
         for p_, b in bodies.items():
